@@ -474,6 +474,8 @@ func GoType(t *lang.Type) string {
 			s += " " + GoType(t.Result())
 		}
 		return s
+	case "dict":
+		return "dict.Dict[" + GoType(t.E[0]) + ", " + GoType(t.E[1]) + "]"
 	case "rec", "union":
 		if len(t.E) == 0 {
 			return t.Name
